@@ -397,6 +397,39 @@ def oracle(ck: Check, tier, deep):
                                    f"(max difference {np.abs(ti.IM - tf.IM).max() if ti.IM.shape == tf.IM.shape else 'shape'})")
         elif ref.shape != tf.IM.shape or np.abs(ref - tf.IM).max() > 1e-12 * 60:
             ck.violation(dict(sig, clause="transform-centres-with-set_center"), rep, "Transform(origin=…).IM is not set_center of the (odd-width) float image")
+    # abel.Transform centres with center_image and nothing else: Transform(origin, center_options).IM is center_image(IM, origin, **options)
+    # for every option — odd_size off (even widths stay even), square, axes, crop — and the shape it promises (maintain_size) is kept
+    from abel.tools.center import center_image as _ci
+    for _ in range(40 if not deep else 300):
+        r, c = (int(v) for v in rng.integers(7, 16, size=2))
+        X = rng.random((r, c))
+        opts = dict(odd_size=bool(rng.integers(0, 2)), square=bool(rng.random() < 0.25), crop=["maintain_size", "valid_region", "maintain_data"][int(rng.integers(0, 3))],
+                    order=int(rng.integers(0, 3)))
+        if rng.random() < 0.4:
+            opts["axes"] = [0, 1, (0, 1)][int(rng.integers(0, 3))]
+        o = [(int(rng.integers(2, r - 2)), int(rng.integers(2, c - 2))), (float(rng.uniform(2, r - 3)), float(rng.uniform(2, c - 3))), "com", "convolution"][int(rng.integers(0, 4))]
+        ck.count(("S.transform-options", opts["odd_size"], opts["square"], opts["crop"], c % 2, str(opts.get("axes"))), suite="S.frac")
+        rep = dict(shape=[r, c], origin=o if isinstance(o, str) else list(o), options={k: (list(v) if isinstance(v, tuple) else v) for k, v in opts.items()})
+        sig = dict(site="Transform", clause="centres-with-center_image")
+        try:
+            ref = quiet_call(_ci, X, o, **opts)
+        except Exception:
+            continue                                  # (a combination center_image itself refuses)
+        if ref.shape[1] % 2 == 0 or ref.shape[0] < 3 or ref.shape[1] < 5:
+            # the quadrant methods need an odd width: whatever Transform does with an even one, it must not silently drop columns — IM is compared only
+            try:
+                t = quiet_call(abel.Transform, X, method="hansenlaw", origin=o, center_options=opts)
+            except Exception:
+                continue
+        else:
+            try:
+                t = quiet_call(abel.Transform, X, method="hansenlaw", origin=o, center_options=opts)
+            except Exception as e:
+                ck.violation(dict(sig, clause="exception"), rep, f"{type(e).__name__}: {e}")
+                continue
+        if t.IM.shape != ref.shape or not np.allclose(t.IM, ref, rtol=0, atol=1e-12):
+            ck.violation(sig, rep, f"Transform(origin={o!r}, center_options={opts}).IM has shape {t.IM.shape}, center_image with the same options gives {ref.shape}"
+                         if t.IM.shape != ref.shape else f"Transform(...).IM differs from center_image with the same options by {np.abs(t.IM - ref).max():.3g}")
     # centring is separable: both axes at once = one axis, then the other — for every mix of whole-pixel and fractional coordinates
     # (a whole-pixel axis is not interpolated, not padded or cut for fractional ends, whatever the other axis needs)
     for _ in range(60 if not deep else 600):
